@@ -27,6 +27,12 @@ def Cone.scaledFull (cs : K → K × K) (twoPi nK : K) (c : Cone K) (s : V3 K) (
   | some c' => .inl c'
   | none => .inr ((c.trimeshVerts cs twoPi nK nsubdiv).map (fun p => p.cmul s))
 
+/-! ### point buffers -/
+
+/-- the point buffer of `Polyline::scaled`, `TriMesh::scaled`, `ConvexPolyhedron::scaled`, `ConvexPolygon::scaled`:
+`pt.coords.component_mul_assign(scale)` on every point -/
+def scalePoints3 (pts : List (V3 K)) (s : V3 K) : List (V3 K) := pts.map (fun p => p.cmul s)
+
 /-! ### 2-D `HeightField::segment_at`, `segments`, `to_polyline` -/
 
 /-- `p != q` on `Point2<f64>` -/
